@@ -669,6 +669,12 @@ pub struct ArenaOut {
 fn call_names(text: &str) -> Vec<String> {
     // names followed by '(' in the emitted text, in order
     let mut v = vec![];
+    let tt = text.trim_start();
+    for kw in ["continue", "break"] {
+        if tt.starts_with(kw) {
+            v.push(kw.to_string());
+        }
+    }
     let b = text.as_bytes();
     let mut i = 0;
     while i < b.len() {
